@@ -296,6 +296,15 @@ MUTANTS = [
      [("src/msgpack.rs", "\t\t\t\tlet mut de = rmp_serde::Deserializer::from_read_ref(next);\n\t\t\t\tde.set_max_depth(depth_limit);", "\t\t\t\tlet mut de = rmp_serde::Deserializer::from_read_ref(next);\n\t\t\t\tde.set_max_depth(DEPTH_LIMIT);")]),
     ("d09-default-lookahead-1mib", "violations", "D09", "C10", "R10.4", "the now adjustable TOML look-ahead defaults to 1 MiB: xt's own TOML output between 1 and 2 MiB is no longer recognised from a pipe",
      [("src/input.rs", "pub(crate) const DEFAULT_LOOKAHEAD: usize = 2 * 1024_usize.pow(2);", "pub(crate) const DEFAULT_LOOKAHEAD: usize = 1024_usize.pow(2);")]),
+    ("d13-final-exit-removed", "violations", "D13", "C13", "R13.1", "keep-going mode: the exit(1) behind the failed flag is gone, a run with failed inputs ends with status 0",
+     [("src/main.rs", "\tif failed {\n\t\tprocess::exit(1);\n\t}\n", "\tlet _ = failed;\n")]),
+    ("d13-open-failure-not-flagged", "violations", "D13", "C13", "R13.1", "keep-going mode: an input that cannot be opened is reported but does not set the failed flag",
+     [("src/main.rs", "\t\t\t\txt_report_path!(path, \"{err}\");\n\t\t\t\tfailed = true;\n\t\t\t\tif keep_going {\n\t\t\t\t\tcontinue;", "\t\t\t\txt_report_path!(path, \"{err}\");\n\t\t\t\tif keep_going {\n\t\t\t\t\tcontinue;")]),
+    # ---- round 18: on top of bug fixes done right
+    ("e07-fill-count-overwritten", "violations", "E07", "C07", "R07.8", "the hand-written read_exact keeps only the last read's count (`filled = n`): after a short read the unit is decoded from fewer fresh bytes than its width",
+     [("src/yaml/encoding.rs", "\t\t\tOk(n) => filled += n,", "\t\t\tOk(n) => filled = n,")]),
+    ("e07-fill-stops-one-short", "violations", "E07", "C07", "R07.8", "the hand-written read_exact stops one byte early",
+     [("src/yaml/encoding.rs", "\twhile filled < unit.len() {", "\twhile filled + 1 < unit.len() {")]),
     ("r48-stash-ignored", "violations", "R48", "C12", "R12.2", "the reader's own error is discarded in favour of libyaml's",
      [("src/yaml/chunker/parser.rs", "Some(read_err) => read_err,", "Some(_) => io::Error::new(io::ErrorKind::InvalidData, \"read failed\"),")]),
     ("r49-scratch-tail", "violations", "R49", "C07", "R07.7", "remainder taken from the whole scratch array",
